@@ -311,8 +311,8 @@ DropInOutcome loadDropIn(const std::string& text) {
     out.exc = "harness: base rejected";
     return out;
   }
-  Adaptor ad(world::cgfs(), *o->ir_root_, *o->engine_);
-  std::string before = engineCanon(*o->engine_);
+  Adaptor ad(world::cgfs(), *sim::lastIr, *sim::lastEngine);
+  std::string before = engineCanon(*sim::lastEngine);
   try {
     // same steps as FsDropInService::processDropInAdd after reading the file
     Oomd::Config2::JsonConfigParser p;
@@ -336,7 +336,7 @@ DropInOutcome loadDropIn(const std::string& text) {
     free(dm);
     out.frames = vb::lastThrowFrames();
   }
-  out.engineChanged = engineCanon(*o->engine_) != before;
+  out.engineChanged = engineCanon(*sim::lastEngine) != before;
   return out;
 }
 
